@@ -328,6 +328,33 @@ def validateCache (evs : List Ev) : Option String :=
       else go r present
   go evs []
 
+/-- per thread, the cache events follow the request machine of `Cache.step` (`find` hit, or `find` miss → compute → `insert`
+    of the key that missed; with `cache_stores_only_basic_bins = false` one more `find`, of the basic bin, may come between the
+    miss and the insert): no insert without a miss, no request abandoned after a miss, none begun before the last one ended.
+    This is what ties `Cache.step`'s per-thread program counter — on which `C18_cache_answers_in_order` rests — to the code. -/
+def validateCacheProtocol (evs : List Ev) : Option String :=
+  let rec go (l : List Ev) (pend : List (Nat × Int × Nat)) : Option String :=
+    match l with
+    | [] =>
+      match pend with
+      | [] => none
+      | (t, k, _) :: _ => some s!"cache: thread {t} missed key {k} and never inserted it (request lost)"
+    | e :: r =>
+      if e.site == "pm.cache.find" then
+        match pend.find? (·.1 == e.tid) with
+        | none => if e.val == 0 then go r ((e.tid, e.key, 0) :: pend) else go r pend
+        | some (_, k, n) =>
+          if n ≥ 1 then some s!"cache: thread {e.tid} began another request before inserting key {k}, which it had missed"
+          else go r ((e.tid, k, 1) :: pend.filter (·.1 != e.tid))
+      else if e.site == "pm.cache.insert" then
+        match pend.find? (·.1 == e.tid) with
+        | none => some s!"cache: thread {e.tid} inserted key {e.key} without having missed it"
+        | some (_, k, _) =>
+          if k != e.key then some s!"cache: thread {e.tid} missed key {k} but inserted key {e.key}"
+          else go r (pend.filter (·.1 != e.tid))
+      else go r pend
+  go evs []
+
 /-- work distribution: between two `begin` markers every work item key is processed exactly once -/
 def validateWork (site : String) (expected : Nat) (evs : List Ev) : Option String :=
   let ks := (evs.filter (·.site == site)).map (·.key)
